@@ -48,7 +48,7 @@ class Prog:
         return '\n'.join(self.lines) + '\n'
 
 
-LAYOUTS_DERIVED = ['v2', 'v3', 'r2', 'r3', 'h2', 'x2', 'b3', 'H2', 's2', 'S2', 'n2', 'd2', 'k2', 'k3', 'x1', 's1', 'n1']
+LAYOUTS_DERIVED = ['v2', 'v3', 'r2', 'r3', 'h2', 'x2', 'b3', 'H2', 's2', 'S2', 'n2', 'd2', 'k2', 'k3', 'x1', 's1', 'n1', 'U1', 'I1', 'U1']
 
 
 def pick_layout(rng, plain=3):
@@ -273,7 +273,7 @@ def emit_put(p, rng, v, mt, coll, parts, cellvals, tagset, use_imap=True):
         else:
             texts[r] = rw_text('put', form, coll, v, mt, lay, st, ct, sd, imap, vals)
         tagset.add(form)
-        if lay[0] in 'hxbHsSndk':
+        if lay[0] in 'hxbHsSndkUI':
             tagset.add('buftype-' + lay[0])
         if lay.startswith('v'):
             tagset.add('buftype-gaps')
